@@ -5,4 +5,10 @@ EXTENDS LazyPool
 NTopDef    == (1 :> 0) @@ (2 :> 1) @@ (3 :> 3)
 NNestedDef == (1 :> 0) @@ (2 :> 2) @@ (3 :> 3)
 NoLimit    == -1      \* (a configuration file cannot hold a negative literal)
+
+\* refinement: LazyPool implements the ownership protocol of Ownership.tla (whose safety for any number of goroutines is proved with TLAPS)
+Abs == INSTANCE Ownership WITH Obj <- Objs,
+         own <- [g \in 1..G |-> {o \in Objs : obj[o].st = "held" /\ obj[o].holder = g}],
+         pooled <- {o \in Objs : obj[o].st # "held"}
+AbsSpec == Abs!Spec
 =============================================================================
